@@ -5,7 +5,7 @@ name=$1; patch=$2; shift 2
 d=/tmp/try/$name
 rm -rf $d; mkdir -p $d
 git -C /repo worktree add -q --detach $d/wt HEAD || exit 2
-( cd $d/wt && git apply $patch ) || { echo "PATCH DOES NOT APPLY"; git -C /repo worktree remove --force $d/wt; exit 2; }
+( cd $d/wt && ( git apply $patch 2>/dev/null || git apply --3way $patch ) ) || { echo "PATCH DOES NOT APPLY"; git -C /repo worktree remove --force $d/wt; exit 2; }
 ( cd $d/wt && PYTHONPATH=$d/wt timeout 900 /venv/bin/python -m pytest -q -p no:cacheprovider 2>&1 | tail -1 ) 
 rsync -a --exclude build/cases --exclude build/replay --exclude .git /verif/ $d/verif/
 for p in "$@"; do
